@@ -459,7 +459,7 @@ class C08(Prop):
                        "through the generic and every concrete decoder; every (concrete class, TLV type) pair through unpack, "
                        "from_tlv and TlvHolder.to_*; all 256 first value octets (action x status nibble) of filestore request "
                        "and response; all 256 fault-handler value octets; every status-code member through the three helpers; "
-                       "UTF-8 acceptance: all 1-octet strings, all 2-octet strings with a lead octet >= 0x70 (all 65 536 in the thorough tier), all lead x second-octet pairs of the 3/4-octet forms")
+                       "UTF-8 acceptance: all 1-octet strings, all 2-octet strings with a lead octet >= 0x70 (all 65 536 in the thorough tier), all lead x second-octet pairs of the 3/4-octet forms (thorough: all 3-octet strings with lead E0, E1, ED, EF)")
     trusted_base = ["file names are modelled by their UTF-8 octets; bytes.decode() acceptance is the model's utf8Valid, "
                     "tied to CPython's strict decoder by the tlv_utf8 op (exhaustive on 1-2 octets, structured beyond)",
                     "TypeError of TlvHolder.to_* for a concrete object of another class is mapped to the payload "
@@ -527,7 +527,7 @@ class C08(Prop):
     # ------------------------------------------------------------------------------------------
     def cases(self, rng: random.Random, tier: str) -> Iterator[Case]:
         thorough = tier == "thorough"
-        R = 10 if thorough else 1
+        R = 40 if thorough else 4
         yield from self.gen_lv(rng, R)
         yield from self.gen_tlv(rng, R)
         yield from self.gen_wrappers(rng, R)
@@ -936,7 +936,17 @@ class C08(Prop):
                 for c, d in (((0x80, 0x80), (0xBF, 0xBF), (0x7F, 0x80), (0x80, 0xC0), (0xC0, 0x80), (0xBF, 0x7F)) if thorough
                              else ((0x80, 0xBF), (0x7F, 0x80), (0xBF, 0xC0))):
                     yield Case({"op": "tlv_utf8", "raw": hx(bytes([a, b, c, d]))}, "valid", tag="4-octet-forms")
-        for _ in range(3000 * R):
+        if thorough:
+            for a in (0xE0, 0xE1, 0xED, 0xEF):
+                for b in range(256):
+                    for c in range(256):
+                        yield Case({"op": "tlv_utf8", "raw": hx(bytes([a, b, c]))}, "valid", tag="all-3-octet-lead-e0-e1-ed-ef")
+            for a in (0xF0, 0xF1, 0xF4):
+                for b in range(256):
+                    for c in tails:
+                        for d in (0x7F, 0x80, 0xBF, 0xC0):
+                            yield Case({"op": "tlv_utf8", "raw": hx(bytes([a, b, c, d]))}, "valid", tag="4-octet-forms-deep")
+        for _ in range(1500 * R):
             parts = []
             for _ in range(rng.randint(1, 6)):
                 k = rng.random()
